@@ -28,12 +28,15 @@ def _dispatch(prop, t):
             "evaluate() = the specification's transitive substitution, keys()/explain() include every key it reads; "
             "non-trivial = the graph or the dictionary contains a template",
             ["TLC + Json module trusted", "confectioner modelled as it behaves", "template parameters never contain braces"])
-    if prop in ("C05", "C10", "C11", "C03", "C08", "C01", "C02", "C06", "C12"):
+    if prop in ("C05", "C10", "C11", "C03", "C08", "C01", "C02", "C06", "C12", "C16"):
         from . import check_expr
         fams = {"C05": ["combinators"], "C10": ["combinators", "options:light"], "C11": ["combinators", "options:light"],
                 "C03": ["combinators", "options:light", "presets:light"], "C08": ["presets"], "C01": ["caching", "presets:light"],
-                "C02": ["caching"], "C06": ["combinators", "caching"], "C12": ["failing", "failing4"]}[prop]
+                "C02": ["caching"], "C06": ["combinators", "caching"], "C12": ["failing", "failing4"], "C16": ["caching"]}[prop]
         return check_expr.check(prop, t, fams, check_expr.RULES[prop], check_expr.ASSUME)
+    if prop == "C17":
+        from . import check_cache
+        return check_cache.main(t)
     if prop == "C15":
         from . import check_threads
         return check_threads.main(t)
@@ -48,6 +51,9 @@ def _replay(path):
     if kind == "runtime":
         from . import check_runtime
         return check_runtime.replay_file(doc)
+    if kind in ("cache", "cache-trace"):
+        from . import check_cache
+        return check_cache.replay_file(doc)
     if kind == "expr":
         from . import check_expr
         return check_expr.replay_file(doc)
